@@ -3,7 +3,6 @@ package checks
 import (
 	"encoding/json"
 	"fmt"
-	"math"
 	"strings"
 	"time"
 
@@ -93,6 +92,11 @@ func c08LawRun(c *c08LawCase) (exp, act string, ok bool) {
 				return "one of < = >", fmt.Sprintf("compare(%s, %s) = %q", c.Terms[i], c.Terms[j], m[i][j]), false
 			}
 			if hg {
+				continue
+			}
+			if cmp == 0 && c.Terms[i] != c.Terms[j] {
+				// equal by value but written differently (0.0 and -0.0): which way they are ordered, if at all, is left
+				// open (see the assumptions); the laws below still bind whatever the implementation answers
 				continue
 			}
 			want := "="
@@ -317,10 +321,7 @@ func c08NumberWork(w *h.W) {
 		nums = append(nums, fmt.Sprint(i))
 	}
 	for _, f := range c07Floats(w.Thorough()) {
-		if f == 0 && math.Signbit(f) {
-			continue // -0.0 versus 0.0 is left open (see the assumptions)
-		}
-		nums = append(nums, ref.Text(ref.Flt(f)))
+		nums = append(nums, ref.Text(ref.Flt(f))) // -0.0 included: its order against 0.0 is open, the laws are not
 	}
 	var sets [][]string
 	sets = append(sets, nums)
@@ -351,8 +352,14 @@ func c08NumberWork(w *h.W) {
 			w.Violation("laws(numbers): "+exp, c, exp, act, len(s))
 		}
 	}
-	// the six comparison predicates on all pairs of the bare grid
-	for i, a := range nums {
+	// the six comparison predicates on all pairs of the bare grid (without -0.0: its order against 0.0 is open)
+	var bare []string
+	for _, n := range nums {
+		if n != "-0.0" {
+			bare = append(bare, n)
+		}
+	}
+	for i, a := range bare {
 		if !w.Mine() {
 			continue
 		}
@@ -360,7 +367,7 @@ func c08NumberWork(w *h.W) {
 			return
 		}
 		pc := &h.ProgCase{Independent: true}
-		for _, b := range nums {
+		for _, b := range bare {
 			for _, op := range c08Ops {
 				pc.Steps = append(pc.Steps, h.Query(Cm(op, rd(a), rd(b)), 2))
 			}
